@@ -2,6 +2,8 @@ package layouts
 
 import (
 	"fmt"
+	"sort"
+	"strconv"
 	"strings"
 )
 
@@ -522,7 +524,51 @@ func init() {
 		}
 		return finish(lines, l, true)
 	}
-	f.expected = func(recs []Record, l Layout) []Pair {
+	f.files = func(recs []Record, l Layout) map[string][]byte {
+		g := goRecordOf(recs)
+		if g == nil || g.A("sum") == "" {
+			return nil
+		}
+		var lines []string
+		for _, e := range GoSumEntries(recs, l) {
+			if e.Full {
+				lines = append(lines, e.Path+" "+e.Version+" h1:"+fakeHash(e.Path+"@"+e.Version, 43)+"=")
+			}
+			lines = append(lines, e.Path+" "+e.Version+"/go.mod h1:"+fakeHash(e.Path+"@"+e.Version+"/go.mod", 43)+"=")
+		}
+		// go.sum is written by the go command: LF only
+		return map[string][]byte{"go.sum": finish(lines, l, false)}
+	}
+	f.located = func(recs []Record, l Layout) []Located {
+		var out []Located
+		at := map[Pair]int{}
+		for _, p := range goModOnlyFn(recs, l) {
+			if _, dup := at[p]; dup {
+				continue
+			}
+			at[p] = len(out)
+			out = append(out, Located{p, []string{"go.mod"}})
+		}
+		g := goRecordOf(recs)
+		if g == nil || g.A("sum") == "" || !GoSumIsRead(*g) {
+			return out
+		}
+		seen := map[Pair]bool{}
+		for _, e := range GoSumEntries(recs, l) {
+			p := Pair{e.Path, trimV(e.Version)}
+			if !e.Full || seen[p] {
+				continue
+			}
+			seen[p] = true
+			if i, ok := at[p]; ok {
+				out[i].Locations = append(out[i].Locations, "go.sum")
+			} else {
+				out = append(out, Located{p, []string{"go.sum"}})
+			}
+		}
+		return out
+	}
+	goModOnly := func(recs []Record, l Layout) []Pair {
 		var out []Pair
 		seenGo := false
 		reps := GoModReplaces(recs, l)
@@ -548,7 +594,132 @@ func init() {
 		}
 		return out
 	}
+	goModOnlyFn = goModOnly
+	f.expected = func(recs []Record, l Layout) []Pair {
+		var out []Pair
+		for _, e := range f.located(recs, l) {
+			out = append(out, e.Pair)
+		}
+		return out
+	}
 	register(f)
+}
+
+// goModOnlyFn lists what the go.mod file alone lists (set by the format's init).
+var goModOnlyFn func(recs []Record, l Layout) []Pair
+
+// goRecordOf returns the record of the go directive, or nil.
+func goRecordOf(recs []Record) *Record {
+	for i := range recs {
+		if recs[i].A("kind") == "go" {
+			return &recs[i]
+		}
+	}
+	return nil
+}
+
+// GoBelow117 reports whether a go directive's version ("1.16", "1.17.0", ...) is below 1.17.
+func GoBelow117(v string) bool {
+	parts := strings.SplitN(v, ".", 3)
+	if len(parts) < 2 {
+		return false
+	}
+	major, err1 := strconv.Atoi(parts[0])
+	minor, err2 := strconv.Atoi(parts[1])
+	if err1 != nil || err2 != nil {
+		return false
+	}
+	return major < 1 || (major == 1 && minor < 17)
+}
+
+// GoSumIsRead reports whether, per the gomod extractor's documentation, the go.sum next to
+// the go.mod with this go record contributes packages: "At go 1.17 and above, the go command
+// adds an indirect requirement for each module that provides any package imported"; "Below
+// 1.17 go.mod does not contain indirect dependencies but they might be in go.sum, thus we look
+// into it as well". (A go directive below 1.17 together with a toolchain line is never given a
+// go.sum by the generator.)
+func GoSumIsRead(g Record) bool {
+	return g.A("toolchain") == "" && GoBelow117(g.Version)
+}
+
+// GoSumEntry is one module version of a go.sum file: Full entries have the "h1:" line of the
+// module's file tree and the "/go.mod h1:" line, the others only the latter (module versions
+// that were only looked at while building the module graph).
+type GoSumEntry struct {
+	Path, Version string
+	Full          bool
+}
+
+// GoSumEntries derives the go.sum written next to the go.mod from the record set and the
+// letters of the go record's "sum" attribute, sorted the way the go command writes the file:
+//
+//	t  every module version the go.mod resolves to (what `go mod tidy` leaves behind)
+//	o  an older version of every required module path (stale lines that were never pruned)
+//	x  modules that go.mod does not mention (indirect dependencies / leftovers)
+//	m  module versions with a /go.mod line only
+//	e  nothing (empty file)
+func GoSumEntries(recs []Record, l Layout) []GoSumEntry {
+	g := goRecordOf(recs)
+	if g == nil {
+		return nil
+	}
+	letters := g.A("sum")
+	var out []GoSumEntry
+	seen := map[GoSumEntry]bool{}
+	add := func(p, v string, full bool) {
+		e := GoSumEntry{p, v, full}
+		if v != "" && !seen[e] {
+			seen[e] = true
+			out = append(out, e)
+		}
+	}
+	older := func(path, v string) string {
+		major := 0
+		if m, _, ok := strings.Cut(strings.TrimPrefix(v, "v"), "."); ok {
+			major, _ = strconv.Atoi(m)
+		}
+		o := "v" + strconv.Itoa(major) + ".0.0-20200102030405-" + fakeHash(path, 12)
+		if strings.HasSuffix(v, "+incompatible") {
+			o += "+incompatible"
+		}
+		return o
+	}
+	reps := GoModReplaces(recs, l)
+	first := ""
+	for _, r := range recs {
+		if r.A("kind") != "" {
+			continue
+		}
+		if first == "" {
+			first = r.Name
+		}
+		if strings.Contains(letters, "t") {
+			n, v := goModResolve(reps, r.Name, r.Version)
+			add(n, v, true) // (a directory replacement has no version and no go.sum line)
+		}
+		if strings.Contains(letters, "o") {
+			add(r.Name, older(r.Name, r.Version), true)
+		}
+	}
+	if strings.Contains(letters, "x") {
+		add("example.com/verif/indirect-a", "v0.3.1", true)
+		add("example.com/verif/indirect-a", "v0.3.0", true)
+		add("gopkg.in/verif-extra.v3", "v3.0.1", true)
+		add("example.com/verif/legacy", "v2.1.0+incompatible", true)
+	}
+	if strings.Contains(letters, "m") {
+		add("example.com/verif/graphonly", "v1.4.0", false)
+		if first != "" {
+			add(first, "v0.0.0-20190101000000-"+fakeHash(first, 12), false)
+		}
+	}
+	sort.SliceStable(out, func(i, j int) bool {
+		if out[i].Path != out[j].Path {
+			return out[i].Path < out[j].Path
+		}
+		return out[i].Version < out[j].Version
+	})
+	return out
 }
 
 // ---------------------------------------------------------------------------------------
